@@ -10,6 +10,7 @@ import gens
 FAMILIES = ['membrane', 'component']
 BRIDGES = ['br_perm_', 'br_ea_', 'br_selectivity_', 'br_pureflux_', 'br_conv_', 'br_vp_']
 PROPS_V = 'Props/C12.v'
+EXTRA_TARGETS = ['Model/NumCheck.vo']
 BUDGET = {'quick': 600, 'thorough': 15000}
 ORACLE_RULE = ('1..6 experiments per component at distinct temperatures 273..400 K in random order (other component\'s experiments interleaved), units '
                '{kg, SI, GPU}, Ea -60..120 kJ/mol stated or unstated, on an exact Arrhenius line or noisy, query 260..420 K incl. exact experiment temperatures; '
@@ -113,6 +114,14 @@ def oracle(rng, tier):
             ok, detail = False, 'raised %s: %s' % (type(ex).__name__, ex)
         yield {'kind': '%s:%s:n=%d' % ('stated' if stated else 'unstated', units, len(temps)), 'case': case, 'ok': ok, 'detail': detail,
                'nontrivial': len(temps) >= 2}
+
+
+def correspondence(tier, seed):
+    import corr_numeric
+    budget = {'membrane': 60}
+    if tier == 'thorough':
+        budget = {k: v * 12 for k, v in budget.items()}
+    return corr_numeric.run(seed, budget, nmax=30 if tier == 'quick' else 200, tag='C12')
 
 
 def replay(rep):
